@@ -26,5 +26,7 @@ def run(rep, tier):
     failedg = kani.record(rep, resg)
     rep.functions_encoded += ['educe-derived PartialEq/Eq/PartialOrd/Ord/Hash of the generated DoubleAlias, UnionD, ObjD, ObjNest (conjure-codegen output at build time)']
     kani.handle_failures(rep, failedg, 'C14', crate='kani-gen')
-    rep.outside += ['containers longer than 2 elements', 'BTreeMap<K, V> DoubleOps (B-tree code does not get through CBMC; engine M)',
-                    'generated maps/sets with doubles (B-tree), lists longer than 1 inside generated objects, the Unknown union variant']
+    from checks import c14m
+    c14m.run_maps(rep, tier)
+    rep.outside += ['containers longer than 2 elements',
+                    'generated types with map/set fields (their derive calls the map DoubleOps decided above), lists longer than 1 inside generated objects, the Unknown union variant']
